@@ -114,6 +114,7 @@ func runC04(e *Env) {
 		c04FragTie(e, p, frng)
 		c04FunTie(e, p, funrng)
 		c04CloTie(e, p) // the closure fragment F5 (c04clo.go)
+		c04SeqTie(e, p) // the container fragment F6 (c04seq.go)
 	}
 	c04Multi(e, mvrng)
 	c04Obs(e, obsrng)
